@@ -5,3 +5,9 @@
 (declare-fun dictQual (Iface String Int) Int)
 (define-fun u8 ((x Int)) Int (mod x 256))
 (define-fun u32 ((x Int)) Int (mod x 4294967296))
+; number of tracks a track selector distributes over (model field of midix.TrackNoSelector)
+(declare-fun selRange (Iface) Int)
+; ticks of a duration: round(T x v), halves away from zero (C02 allows either neighbour there)
+(define-fun ticks ((T Int) (v Real)) Int (mod (round_half_away (* (to_real T) v)) 4294967296))
+; the track a selector picks: a function of the selector, whether the operation is a meta operation, and its note index
+(declare-fun selOf (Iface Bool Int) Int)
